@@ -77,6 +77,14 @@ def fixed_cases():
     case("star-prose", [("p", ["rep", 0, None, ["prose"]], None), ("q", ["opt", ["prose"]], None),
                         ("r", ["cat", [L(0, "a"), ["rep", 0, 2, ["prose"]]]], None)],
          ["", "a", "b"])
+    # integer boundaries in repeat bounds (small-int caching, byte limits): 255 / 256 / 257 / 300, inputs one longer
+    case("big-bounds", [("a", ["rep", 2, 257, L(0, "a")], None), ("b", ["rep", 300, 300, L(0, "a")], None),
+                        ("c", ["rep", 0, 256, L(0, "a")], None), ("d", ["rep", 255, 258, L(1, "a")], None),
+                        ("e", ["cat", [["rep", 0, 257, L(0, "a")], L(0, "b")]], None),
+                        # more than 256 partial matches alive between two elements of a concatenation, the short ones needed
+                        ("f", ["cat", [["rep", 0, None, L(0, "a")], ["opt", L(0, "b")]]], None),
+                        ("g", ["cat", [["rep", 0, None, L(0, "a")], ["rep", 0, 1, L(0, "a")], ["opt", L(0, "b")]]], None)],
+         ["a" * 254, "a" * 256, "a" * 257, "a" * 258, "a" * 259, "a" * 300, "a" * 301, "a" * 258 + "b", "a" * 257 + "b"])
     case("right-recursion", [("r", ["alt", 0, [["cat", [L(0, "x"), ["ref", "r"]]], L(0, "x")]], None)],
          ["x", "xx", "xxxxx", "xxy", ""], alpha="xy")
     case("case-sensitive", [("a", L(1, "aB"), None), ("b", L(0, "aB"), None)],
@@ -170,9 +178,10 @@ def run_cases(cases, want_parse=True):
             st = pyimpl.str_tokens(s)
             for n in names:
                 rid = d.rids[id(objs[n])]
-                for i in range(len(s) + 1):
+                offsets = range(len(s) + 1) if len(s) <= 40 else sorted({0, 1, 2, len(s) // 2, len(s) - 1, len(s)})
+                for i in offsets:
                     try:
-                        with pyimpl.time_limit(0.5):
+                        with pyimpl.time_limit(0.5 if len(s) <= 40 else 5.0):
                             r_impl = pyimpl.run_lparse(objs[n], s, i)
                     except pyimpl.SlowCase:
                         slow = True   # exponential backtracking: a runtime effect, not semantics; skip ...
